@@ -954,6 +954,15 @@ Fixpoint close_run (m o : list (Qc * Qc)) : bool :=
   | _, _ => false
   end.
 '''
+RESP_HDR = '''Fixpoint lclose (a b : list Qc) : bool :=
+  match a, b with [], [] => true | x :: r, y :: s => close x y && lclose r s | _, _ => false end.
+(* one recorded interpolation of a real run: abscissae xs, ordinates ys, query instants qs, result out;
+   window start t0, step dt, delay dl, n samples *)
+Definition resp_ok (t0 dt dl : Qc) (n : nat) (xs ys qs out : list Qc) : bool :=
+  lclose (map (grid (K:=QcF) resp_ii_interp_base t0 dt) (seq 0 n)) xs
+  && lclose (map (fun k => (grid (K:=QcF) resp_ii_query_base t0 dt k - dl)%Qc) (seq 0 n)) qs
+  && lclose (map (lin_interp xs ys) qs) out.
+'''
 SIM_CASES_HDR = '''From Coq Require Import QArith Qabs Qcanon Bool List ZArith.
 Require Import LT.FieldSec LT.NumEval LT.NumEvalSim Gen.NumSimGen.
 Import ListNotations.
@@ -1013,7 +1022,7 @@ def funcs_in(tr, acc=None):
 def run(tier='quick', replay=None):
     res = core.Result(PID, tier)
     rng = random.Random(core.seed() * 7919 + 17)
-    core.ensure_theory(['FieldSec', 'NumEval', 'NumEvalSim'])
+    core.ensure_theory(['FieldSec', 'NumEval', 'NumEvalSim', 'NumEvalResp'])
     w = core.Work(PID)
     violations = []
     cex = []            # concrete property failures on the real code: dict(key, what, case, point, ...)
@@ -1062,6 +1071,11 @@ def run(tier='quick', replay=None):
             res.failed_obl.append(('translate_numsim', 'lcapy/simulator.py|mnacpts.py|sexpr.py', str(e)))
             res.obligations += 1
             ns = None
+        if ns is not None and ns.resp_ii is None:
+            # the time-base bookkeeping of _response_impulse_invariance no longer has a shape the translator can resolve:
+            # response_delay_time_base cannot be stated about the code
+            res.failed_obl.append(('translate_response_time_base', 'lcapy/sexpr.py', str(ns.resp_ii_error)))
+            res.obligations += 1
         for f_, t_ in texts.items():
             w.write(f_, t_)
         r0 = core.coqc_many(w.dir, list(texts), timeout=300)
@@ -1086,6 +1100,8 @@ def run(tier='quick', replay=None):
             texts['C17.v'] = open(os.path.join(core.VERIF, 'coq', 'props', 'C17.v')).read()
         if ns is not None:
             texts['C17sim.v'] = open(os.path.join(core.VERIF, 'coq', 'props', 'C17sim.v')).read()
+            if ns.resp_ii is not None:
+                texts['C17resp.v'] = open(os.path.join(core.VERIF, 'coq', 'props', 'C17resp.v')).read()
         bad = core.gate_text('generated', '\n'.join(texts.values()))
         if bad:
             res.failed_obl.append(('gate', 'generated', '; '.join(bad)))
@@ -1611,13 +1627,48 @@ def run(tier='quick', replay=None):
                 pf = RESPW_H[c2['hw']][1]
                 tv2 = [t0_ + h2 * i for i in range(N2)]
                 # diagnosis only: the output as it would be if the delayed signal were interpolated on a grid starting at 0
-                alt = max(abs(a - respw_ref(pf, c2['input'], t + t0_ - float(F(c2['t1'])) - dl_)) for a, t in zip(y2, tv2))
+                # (only where such a grid [0, T] covers the query instant; outside it the interpolant is filled with 0)
+                alt = max([abs(a - respw_ref(pf, c2['input'], t + t0_ - float(F(c2['t1'])) - dl_)) for a, t in zip(y2, tv2)
+                           if 0 <= t - dl_ <= float(F(c2['T']))] or [float('inf')])
                 hint = ('; the result matches the exact response shifted by the start of the window t0 = %s to within %.3g (time base of the delayed '
                         'output is not the caller\'s time vector)' % (c2['t0'], alt)) if alt <= Cb * h2 and t0_ != 0 else ''
                 add_cex('response:no-convergence:' + cid,
                         '(%s).response(x, linspace(%s, %s + 4, N), method=%s%s) with x = %s switched on at t = %s: max error vs the exact response %.3g (N=%d) '
                         '-> %.3g (N=%d), first-order bound %.3g%s' % (c2['H'], c2['t0'], c2['t0'], c2['method'], ', alpha=%s' % c2['alpha'] if 'alpha' in c2 else '',
                                                                  c2['input'], c2['t1'], e1, N1, e2, N2, Cb * h2, hint), c2, float_evidence=True)
+        # the interpolation step of real impulse-invariance runs against the model: abscissae = the TRANSLATED time base of the
+        # window, query instants = translated base minus the delay, result = exact linear interpolation (fill 0 outside) of what
+        # the run handed to interp1d; evaluated in Coq over Qc on the exact values of the floats (tolerance verdict in Qc)
+        coarse = [(c, r) for c, r in interp_runs if int(c['N']) <= 129 and r.get('interp')]
+        if ns is not None and ns.resp_ii is not None and coarse and os.path.exists(w.path('NumSimGen.vo')):
+            lines = []
+            qf = lambda v: qcl(F(float(v)))
+            ql = lambda l: '[%s]' % '; '.join(qf(v) for v in l)
+            for i, (c, r) in enumerate(coarse):
+                e = r['interp'][-1]
+                N = int(c['N'])
+                pyok = (r['ninterp'] == 1 and len(e['xs']) == N and len(e['ys']) == N and len(e.get('q', [])) == N and e.get('out') == r['y']
+                        and e['args'] == 0 and e['kw'] == {'bounds_error': 'False', 'fill_value': '0'})
+                if not pyok:
+                    res.disagreements.append({'case': c, 'lcapy': {k: v for k, v in e.items() if k in ('args', 'kw')}, 'side': 'response interpolation call shape'})
+                    continue
+                t0q, dtq = qf(r['tv'][0]), qcl(F(r['tv'][1]) - F(r['tv'][0]))
+                lines.append('(%d%%nat, resp_ok %s %s %s %d %s %s %s %s)' % (i, t0q, dtq, qf(float(F(c['delay']))), N, ql(e['xs']), ql(e['ys']), ql(e['q']), ql(e['out'])))
+                res.add_case('respinterp|' + c['gid'], True, None)
+            w.write('simresp.v', SIM_CASES_HDR.replace('LT.NumEvalSim Gen.NumSimGen', 'LT.NumEvalSim LT.NumEvalResp Gen.NumSimGen') + SIM_REC_HDR + RESP_HDR +
+                    'Definition cases : list (nat * bool) := [\n%s].\nEval vm_compute in (failing cases).\n' % ';\n'.join(lines))
+            ok, out, secs = core.coqc(w.dir, 'simresp.v', timeout=600)
+            fl = core.parse_eval_list(out) if ok else None
+            res.extra['response_interpolations_compared'] = len(lines)
+            res.extra.setdefault('coq_seconds', {})['simresp.v'] = round(secs, 1)
+            if fl is None:
+                res.failed_obl.append(('correspondence_eval', 'simresp.v', out[-600:]))
+                res.obligations += 1
+            else:
+                for i in fl:
+                    c, r = coarse[i]
+                    res.disagreements.append({'case': c, 'lcapy': {'tv0': r['tv'][0], 'interp_xs0': r['interp'][-1]['xs'][0], 'q0': r['interp'][-1]['q'][0]},
+                                              'side': 'response interpolation time base / linear interpolation vs Gen.NumSimGen resp_ii_*'})
         for cid, lst in errs(groups).items():
             if len(lst) < 2:
                 continue
@@ -1659,7 +1710,7 @@ def run(tier='quick', replay=None):
             violations.append(d)
         new_keys = [k for k in seen if k not in known_open]
         THM_EXPLAIN = [(r'^causal_', ('causal_mask',)), (r'^(array_|scalar_)', ('array_ne_scalar',)), (r'^(no_extrapolation|conditioned_)', ('extrapolated',)),
-                       (r'^(cap_|ind_|rmodel_|stamp_|pade)', ('sim:',)), (r'^gbt_', ('response:',))]
+                       (r'^(cap_|ind_|rmodel_|stamp_|pade)', ('sim:',)), (r'^gbt_', ('response:',)), (r'^response_', ('response:',))]
 
         def explained(name, f_):
             if f_ in file_key:
